@@ -3,14 +3,18 @@ package main
 
 import (
 	"github.com/drand/drand/v2/zzverif/cli"
+	"github.com/drand/drand/v2/zzverif/engcache"
+	"github.com/drand/drand/v2/zzverif/engcbstore"
 	"github.com/drand/drand/v2/zzverif/engcodec"
 	"github.com/drand/drand/v2/zzverif/engcrash"
 	"github.com/drand/drand/v2/zzverif/engdkgrun"
+	"github.com/drand/drand/v2/zzverif/enghttp"
 	"github.com/drand/drand/v2/zzverif/engnode"
 	"github.com/drand/drand/v2/zzverif/engrobust"
 	"github.com/drand/drand/v2/zzverif/engrouting"
 	"github.com/drand/drand/v2/zzverif/engsecrecy"
 	"github.com/drand/drand/v2/zzverif/engstore"
+	"github.com/drand/drand/v2/zzverif/engstream"
 	"github.com/drand/drand/v2/zzverif/engsync"
 	"github.com/drand/drand/v2/zzverif/engtime"
 	"github.com/drand/drand/v2/zzverif/extract"
@@ -22,6 +26,10 @@ func main() {
 		"time":     engtime.Run,
 		"node":     engnode.Run,
 		"reshare":  engnode.RunReshare,
+		"httpwait": enghttp.Run,
+		"cache":    engcache.Run,
+		"cbstore":  engcbstore.Run,
+		"stream":   engstream.Run,
 		"sync":     engsync.Run,
 		"dkgrun":   engdkgrun.Run,
 		"secrecy":  engsecrecy.Run,
